@@ -40,7 +40,7 @@ static int mk(int be, int k, int m, int hd)
 /* encode, decode with fragment 0 missing, reconstruct the first parity; everything hashed */
 static void use(struct tres *r, int desc, int k, int m, int wbytes, int strict)
 {
-    uint8_t data[64]; size_t len = (size_t)(2 * k * wbytes + 3); vh_fill(data, len, PAT_RAMP);
+    uint8_t data[64]; memset(data, 0x5a, sizeof data); size_t len = (size_t)(2 * k * wbytes + 3); vh_fill(data, len, PAT_RAMP);
     char **ed = NULL, **ep = NULL; uint64_t fl = 0;
     int rc = liberasurecode_encode(desc, (char *)data, len, &ed, &ep, &fl);
     r->h = mix(r->h, &rc, sizeof rc);
@@ -67,7 +67,7 @@ static void use(struct tres *r, int desc, int k, int m, int wbytes, int strict)
  * them and ThreadSanitizer reports any state the data plane shares between calls. */
 static void use_full(struct tres *r, int desc, int be, int k, int m, int hd, int wbytes)
 {
-    uint8_t data[256]; size_t len = (size_t)(2 * k * wbytes + 3); vh_fill(data, len, PAT_RAMP);
+    uint8_t data[256]; memset(data, 0x5a, sizeof data); size_t len = (size_t)(2 * k * wbytes + 3); vh_fill(data, len, PAT_RAMP);
     char **ed = NULL, **ep = NULL; uint64_t fl = 0;
     int tol = be == XR_ ? hd - 1 : m;
     int rc = liberasurecode_encode(desc, (char *)data, len, &ed, &ep, &fl);
